@@ -37,6 +37,28 @@ namespace zoo {
             ++visited;
          }
          if (visited != n) c.probe.bad.push_back({ c.probe.current_accessor, "iteration visited " + std::to_string(visited) + " elements of " + std::to_string(n) });
+         // the other three ways of walking: `*it++`, backwards with `--it`, backwards with `it--`
+         try {
+            std::size_t k = 0;
+            for (auto it = s.begin(); it != s.end() and k <= n + 1; ++k) {
+               const T& m = *it++;
+               if (&m != &*s.position(k)) { c.probe.bad.push_back({ c.probe.current_accessor, "iteration with *it++ disagrees with positional access at " + std::to_string(k) }); break; }
+            }
+            if (k != n) c.probe.bad.push_back({ c.probe.current_accessor, "iteration with *it++ visited " + std::to_string(k) + " elements of " + std::to_string(n) });
+            k = n;
+            for (auto it = s.end(); it != s.begin() and k > 0; ) {
+               --it; --k;
+               if (&*it != &*s.position(k)) { c.probe.bad.push_back({ c.probe.current_accessor, "backward iteration with --it disagrees with positional access at " + std::to_string(k) }); break; }
+            }
+            if (k != 0) c.probe.bad.push_back({ c.probe.current_accessor, "backward iteration with --it stopped at " + std::to_string(k) });
+            k = n;
+            for (auto it = s.end(); it != s.begin() and k > 0; ) {
+               auto old = it--; --k;
+               if (not (old == s.position(k + 1)) or &*it != &*s.position(k)) { c.probe.bad.push_back({ c.probe.current_accessor, "backward iteration with it-- disagrees with positional access at " + std::to_string(k) }); break; }
+            }
+            if (k != 0) c.probe.bad.push_back({ c.probe.current_accessor, "backward iteration with it-- stopped at " + std::to_string(k) });
+         }
+         catch (const std::exception& e) { c.probe.bad.push_back({ c.probe.current_accessor, std::string("walking a sequence within its bounds throws: ") + e.what() }); }
          // at and beyond size(); the extremes; and positions whose low 8 / 16 / 31 / 32 / 33 bits fall back into range
          std::vector<std::size_t> beyond{ n, n + 1, n + 2, std::size_t(-1), std::size_t(-1) / 2, (std::size_t(1) << 32) + n };
          for (int bits : { 8, 16, 31, 32, 33, 48, 63 }) {
